@@ -92,7 +92,7 @@ impl SubCheck for Accept {
             }
             f
         });
-        Some(prop_oneof![6 => zone_file(40), 1 => zone_file(2000), 2 => extreme].boxed())
+        Some(prop_oneof![6 => zone_file(40), 1 => zone_file(2000), 2 => extreme, 2 => crate::gen::zone::big_table_file()].boxed())
     }
     fn check(&self, f: &ZoneFile, obs: &mut Obs) -> Result<(), String> {
         let m = &f.model;
@@ -101,6 +101,8 @@ impl SubCheck for Accept {
         obs.nt_if(ext, "extreme_transition_time");
         obs.label(match f.version { Version::V1 => "v1", Version::V2 => "v2", Version::V3 => "v3" });
         obs.label_if(m.transitions.len() > 100, "many_transitions");
+        obs.nt_if(m.types.len() > 8, "many_types");
+        obs.label_if(m.types.len() * 7 + f.extra_chars >= 256, "designation_table_256_or_more");
         let bytes = f.bytes();
         let z = parse_tzif(&bytes)?.map_err(|e| format!("a file written by the reference TZif writer was rejected: {e}"))?;
         let d = dump_model(&z);
